@@ -839,3 +839,44 @@ def run_case(ctx, i, rng):
             check_path(ctx, rng, q, 'parsed-from-' + kind)
     if len(ctx.samples) < 5 and ctx.evaluations % 97 < 4:
         ctx.sample({'kind': kind, 'text': short(text, 200)})
+
+
+# ------------------------------------------------ harvested objects (thorough)
+
+def _judge_harvested(ctx, cls, obj):
+    """The URI oracle of this check on a path that the repository's tests
+    constructed."""
+    import random
+    from vf.harvest import in_domain
+    if not in_domain(obj, []):
+        ctx.outcome('harvested-outside-domain')
+        ctx.count('outside-domain')
+        return
+    def keyless(p):
+        return isinstance(p, CIMInstanceName) and (
+            len(p.keybindings) == 0 or
+            any(keyless(v) for v in p.keybindings.values()))
+
+    if keyless(obj):
+        # pywbem warns that DSP0004 does not permit them; their URI is that
+        # of a class path
+        ctx.outcome('harvested-instance-path-without-keys')
+        ctx.count('instance-path-without-keys')
+        return
+    rng = random.Random(repr(obj))
+    check_path(ctx, rng, obj, 'harvested-' + cls)
+
+
+def post_run(tier, seed, workdir):
+    """Thorough tier: the same oracle on every instance/class path that the
+    repository's own unit tests construct (vf/harvest.py)."""
+    if tier != 'thorough':
+        return {}
+    from vf.harvest import judge_harvest
+    return judge_harvest('C07', tier, seed, workdir, _judge_harvested,
+                         ['CIMInstanceName', 'CIMClassName'])
+
+
+def replay_harvested(ctx, rec):
+    from vf.harvest import replay_harvested as rh
+    rh(ctx, rec, _judge_harvested)
